@@ -3,13 +3,13 @@
 use cgmath::prelude::*;
 use cgmath::{Basis2, Basis3, Decomposed, Matrix3, Matrix4, Point2, Point3, Quaternion, Vector2, Vector3};
 
-use crate::clause;
-use crate::conv::*;
-use crate::fw::{Case, Clause, Rd};
-use crate::gen::{self, Rng, Tier};
-use crate::iv::Tri;
-use crate::model::*;
-use crate::sc::{Ck, Rat, Sc};
+use cgv_core::clause;
+use cgv_core::conv::*;
+use cgv_core::fw::{Case, Clause, Rd};
+use cgv_core::gen::{self, Rng, Tier};
+use cgv_core::iv::Tri;
+use cgv_core::model::*;
+use cgv_core::sc::{Ck, Rat, Sc};
 
 /// scale factors: ordinary rationals, negatives, 0, and the ladder around 1e-6
 fn gen_scale(rng: &mut Rng, tier: Tier) -> Rat {
